@@ -194,7 +194,7 @@ Qed.
 (** ---------- what a round leaves of the session ---------- *)
 Definition same_session (s' s : sstate) : Prop :=
   comstate s' = comstate s /\ esmtp s' = esmtp s /\ helostr s' = helostr s /\ mailfrom s' = mailfrom s
-  /\ rcpts s' = rcpts s /\ rcptcount s' = rcptcount s /\ goodrcpt s' = goodrcpt s /\ relayclient s' = relayclient s
+  /\ rcpts s' = rcpts s /\ rcptcount s' = rcptcount s /\ goodrcpt s' = goodrcpt s /\ relkey s' = relkey s
   /\ authname s' = authname s.
 
 Lemma same_refl s : same_session s s.
@@ -655,11 +655,11 @@ Proof.
   - destruct Hph as [E _]. rewrite Ec in E. discriminate.
 Qed.
 
-Lemma R_after_switch oc s r :
-  mailfrom s = [] -> rcpts s = [] -> rcptcount s = 0 -> goodrcpt s = 0 -> Irel oc (relayclient s) ->
-  forall a, R oc (set_badcmds (set_comstate (set_rd s r) 1%N) 0) (a_reset a).
+Lemma R_after_switch oc s r a :
+  mailfrom s = [] -> rcpts s = [] -> rcptcount s = 0 -> goodrcpt s = 0 -> Irel oc (a_cert a) (relkey s) ->
+  R oc (set_badcmds (set_comstate (set_rd s r) 1%N) 0) (a_reset a).
 Proof.
-  intros Hmf Hrc Hn Hg Hi a. split; [|exact Hi].
+  intros Hmf Hrc Hn Hg Hi. split; [|exact Hi].
   cbn [set_badcmds set_comstate set_rd comstate mailfrom rcpts rcptcount goodrcpt].
   rewrite Hmf, Hrc, Hn, Hg. unfold Rc, a_reset. cbn. repeat split; auto.
 Qed.
@@ -721,7 +721,7 @@ Proof.
   unfold ttrace_ok, trun. cbn [ttrace_run trace_step].
   apply tserve_inv; [|reflexivity|split; discriminate]. unfold tinit. cbn [ss]. split.
   - unfold init_state, Rc, a_init. cbn. repeat split; auto.
-  - unfold Irel, init_state. cbn. discriminate.
+  - unfold Irel, relkey, init_state. cbn. split; [discriminate|congruence].
 Qed.
 
 (** ---------- readable corollaries of the reset ---------- *)
@@ -942,7 +942,7 @@ Proof.
   apply (tserve_factor fu o (sc_closes sc) (tinit sc) a_init pre post); [|reflexivity|split; discriminate|reflexivity|exact E'].
   unfold tinit. cbn [ss]. split.
   - unfold init_state, Rc, a_init. cbn. repeat split; auto.
-  - unfold Irel, init_state. cbn. discriminate.
+  - unfold Irel, relkey, init_state. cbn. split; [discriminate|congruence].
 Qed.
 
 (** ---------- what the switch does NOT discard ---------- *)
